@@ -670,6 +670,12 @@ class CommandMixin(object):
                 self.v("C02", "each-subscriber-exactly-once", ev,
                        "add %r on %r: subscribed conn %s received %d message frames (subscribers %r)"
                        % (want, k, c, len(got), subscribers))
+                rec2 = self.mb_inc.get(k)
+                if not got and rec2 is not None and rec2["closed_sides"]:
+                    # C08: one side's close never removes the other side's subscription
+                    self.v("C08", "close-keeps-other-subscription", ev,
+                           "after side(s) %r closed mailbox %r, conn %s (still subscribed) no longer receives what is added"
+                           % (sorted(rec2["closed_sides"], key=repr), k, c))
             elif _proj(got[0]) != want:
                 self.v("C02", "delivered-unmodified-with-binders-side", ev,
                        "add %r delivered to conn %s as %r" % (want, c, _proj(got[0])))
